@@ -107,9 +107,12 @@ func (c *ExecCtx) evalCall(st *State, call *ast.CallExpr) []Val {
 	res := c.dispatch(st, fn, recv, args, call.Pos(), call)
 	// context contract: once Done() has delivered, Err() is non-nil
 	if fn.FullName() == "(context.Context).Err" && recvExpr != nil && len(res) == 1 {
-		if st.tags["recv:"+exprString(recvExpr)+".Done()"] {
-			st.assumeT(Ne(res[0].T, IntLit(0)))
-		}
+		st.assumeT(Imp(st.tagTerm("recv:"+exprString(recvExpr)+".Done()"), Ne(res[0].T, IntLit(0))))
+		// Err() is sticky: once non-nil it stays non-nil
+		k := "ctxerr:" + exprString(recvExpr)
+		prev := st.tagTerm(k)
+		st.assumeT(Imp(prev, Ne(res[0].T, IntLit(0))))
+		c.u.ghostSet(st, "$tag:"+k, c.u.define(st, "ctxerr", Or(prev, Ne(res[0].T, IntLit(0)))))
 	}
 	c.callArgs, c.callRecv = args, recv
 	c.runCallAnchors(st, fn, call, res)
@@ -715,8 +718,8 @@ func (c *ExecCtx) resultNilFacts(st *State, t *Term, rt types.Type, fn *types.Fu
 	}
 	switch unalias(rt).Underlying().(type) {
 	case *types.Signature:
-		// func values returned by dependencies (cancel funcs, ...) are non-nil
-		if fn != nil && !inModule(fn.Pkg()) {
+		// func values returned by calls (cancel funcs, span enders, ...) are non-nil
+		if fn != nil {
 			st.assumeT(Ne(t, IntLit(0)))
 		}
 	case *types.Pointer, *types.Map:
@@ -951,6 +954,21 @@ func (c *ExecCtx) dynamicCall(st *State, fv Val, call *ast.CallExpr) []Val {
 		return nil
 	}
 	args := c.evalArgs(st, call, sig, nil)
+	if nm := calleeName(call); nm != "" {
+		c.runBeforeNamedCallAnchors(st, nm, call, nil, args)
+		defer func() {
+			c.callArgs, c.callRecv = args, nil
+			c.runNamedCallAnchors(st, nm, call, c.lastDynRes)
+			c.callArgs = nil
+		}()
+	}
+	res := c.dynamicCall2(st, fv, sig, args, call)
+	c.lastDynRes = res
+	return res
+}
+
+func (c *ExecCtx) dynamicCall2(st *State, fv Val, sig *types.Signature, args []Val, call *ast.CallExpr) []Val {
+	u := c.u
 	if fv.T.Op == "sym" {
 		if cl, ok := st.funcLits[fv.T.Name]; ok && c.depth < maxInlineDepth+2 {
 			return c.inlineLit(st, cl, args, call.Pos())
@@ -1220,7 +1238,7 @@ func (c *ExecCtx) applyContract(st *State, fs *FuncSpec, fn *types.Func, recv *V
 	// bind results
 	env.bindResults(results)
 	for _, cl := range fs.Ensures {
-		if strings.HasPrefix(cl.Label, "internal") {
+		if strings.HasPrefix(cl.Label, "internal") || mentionsGhostVar(fs, cl.Expr) {
 			continue // refers to ghost state of the callee's own verification
 		}
 		env.assuming = true
@@ -1672,4 +1690,36 @@ func (e *Engine) importClosure(p *types.Package) map[*types.Package]bool {
 	walk(p)
 	e.impClosure[p] = c
 	return c
+}
+
+
+// mentionsGhostVar: does the clause mention one of the contract's own ghost
+// variables (which exist only while the callee itself is being verified)?
+func mentionsGhostVar(fs *FuncSpec, e ast.Expr) bool {
+	if len(fs.Extra["ghostvar"]) == 0 {
+		return false
+	}
+	names := map[string]bool{}
+	for _, raw := range fs.Extra["ghostvar"] {
+		f := strings.Fields(raw)
+		if len(f) > 0 {
+			names[dollar(f[0])] = true
+		}
+	}
+	// identifiers in selector position (x.$f) are ghost FIELDS, not variables
+	sels := map[*ast.Ident]bool{}
+	ast.Inspect(e, func(n ast.Node) bool {
+		if se, ok := n.(*ast.SelectorExpr); ok {
+			sels[se.Sel] = true
+		}
+		return true
+	})
+	found := false
+	ast.Inspect(e, func(n ast.Node) bool {
+		if id, ok := n.(*ast.Ident); ok && names[id.Name] && !sels[id] {
+			found = true
+		}
+		return !found
+	})
+	return found
 }
